@@ -424,6 +424,13 @@ func checkProcess(res *Result, segs []segment, input string) {
 
 // C07: delimitation and resumable multi-dump scanning.
 func runC07(prop string, res *Result, pool *DrvPool, r *Rng) {
+	// the command's resume loop (internal/main.go: MultiReader(suffix, in)) end to end: process()
+	// against its model and against the resume protocol over the public API
+	defer func() {
+		rule := res.Rule
+		runCLI(prop, res, pool, r.Fork())
+		res.Rule = rule + " | command level: " + res.Rule
+	}()
 	res.Rule = "(a) every sequence of line kinds up to a bounded length from the initial state, scanned line by line on the implementation and the model (pruned after done/error); (b) streams of 1..4 generated dumps/race reports separated by junk, scanned with the documented resume protocol: one snapshot per dump, each equal to scanning that dump alone and to its description, forwarded text = the junk, no position scanned twice or skipped; non-trivial = reaches a non-looking state; distinct by hash"
 	runLowStreams(res, pool, r.Fork())
 	k := countN(res.Tier, 4, 5)
